@@ -8,5 +8,5 @@ CONSTANTS
   TreesOnly = TRUE
   WhichKinds <- PlainOnly
   BrokenLimit = FALSE
-INVARIANTS RoundTrip RoundTripIff InEmitExact EquivExact
+INVARIANTS RoundTrip RoundTripIff SquareInference InEmitExact EquivExact
 CHECK_DEADLOCK FALSE
